@@ -53,6 +53,7 @@ type Exec struct {
 	Diverged  bool // replay prefix did not match (nondeterminism the harness does not own)
 	Horizon   bool
 	TraceHash string
+	AccLog    []AccessEvent
 }
 
 // Sched is one controlled execution.
@@ -66,6 +67,7 @@ type Sched struct {
 	env     map[string]int
 	aborted bool
 	race    *raceState
+	keep    []any
 }
 
 var active *Sched
